@@ -18,7 +18,7 @@ FILES = ['task.go', 'process.go', 'port.go', 'workflow.go', 'ip.go', 'sink.go', 
          'components/param_combinator.go', 'components/ip_selector_sync.go', 'components/file_splitter.go', 'components/file_globber.go',
          'components/maptotags.go', 'components/streamtosubstream.go', 'components/file_to_params_reader.go', 'components/cmd_to_param.go']
 ORDER = ['C07', 'C09', 'C13', 'C19', 'C16', 'C14', 'C15', 'C04', 'C05', 'C18', 'C02', 'C08', 'C10', 'C17', 'C20', 'C06', 'C12', 'C11', 'C01', 'C03']
-ENV = dict(os.environ, GOFLAGS='-mod=mod', GOPROXY='off', GOSUMDB='off', GOTOOLCHAIN='local')
+ENV = dict(os.environ, GOFLAGS='-mod=mod', GOPROXY='off', GOSUMDB='off', GOTOOLCHAIN='local', BASELINE_TIMEOUT='120s')
 
 
 def mutations(path, lines):
@@ -124,9 +124,18 @@ def run(outdir):
     done = set()
     if os.path.exists(res):
         done = {l.split('\t')[0] for l in open(res)}
+    only = sys.argv[3] if len(sys.argv) > 3 else ''
     for fn in sorted(os.listdir(outdir + '/cands')):
         mid = fn[:-5]
-        if mid in done:
+        if mid in done or (only and not re.search(only, mid)):
+            continue
+        removed = [l for l in open(f'{outdir}/cands/{fn}') if l.startswith('-') and not l.startswith('---')]
+        hunk = ''.join(l for l in open(f'{outdir}/cands/{fn}') if l.startswith('@@'))
+        if re.search(r'PlotGraph|DotGraph|PlotConf', hunk):
+            open(res, 'a').write(f"{mid}\tSKIPPED-PLOTTING\t\n")
+            continue
+        if any(re.search(r'\b(Debug|Info|Audit|Warning|Error)\.Print|\bLogAuditf?\(|Auditf\(|Debugf\(|Infof\(|Warnf\(', l) for l in removed):
+            open(res, 'a').write(f"{mid}\tSKIPPED-LOGGING\t\n")
             continue
         killed, sigs = 'SURVIVED', ''
         for chk in ORDER:
